@@ -133,6 +133,7 @@ func genC15(g *Gen) {
 
 func cloneTopo(t Topology) Topology {
 	var c Topology
+	c.Shuffle = t.Shuffle
 	for _, n := range t.Nodes {
 		m := n
 		m.Slots = append([][2]int(nil), n.Slots...)
@@ -193,6 +194,7 @@ func genC13(g *Gen) {
 		mode = p.Variant
 	}
 	var movedSlots, askSlots []int
+	movedLo, movedHi := -1, -1
 	if mode != "ask" {
 		// MOVED: master 0 hands part of its slots to master 1 (both known to the proxy)
 		t2 := cloneTopo(base)
@@ -206,6 +208,7 @@ func genC13(g *Gen) {
 		for i := 0; i < 6; i++ {
 			movedSlots = append(movedSlots, g.R.Range(mid+1, r[1]))
 		}
+		movedLo, movedHi = mid+1, r[1]
 	}
 	nc := g.R.Range(1, 2)
 	var migKeys = map[int][]string{}
@@ -227,7 +230,25 @@ func genC13(g *Gen) {
 				}
 				return g.R.Intn(16384)
 			}
-			if g.R.Pct(30) || (p.Variant == "mixed" && g.R.Pct(40)) {
+			if movedLo >= 0 && p.Variant != "mixed" && g.R.Pct(8) {
+				// a wide request: 17-40 fragments, every one of them redirected once (each key in a slot of its own that moved)
+				var keys, vals []string
+				cmd := g.R.Pick([]string{"mget", "del", "mset"})
+				seen := map[int]bool{}
+				for i, nk := 0, g.R.Range(17, 40); i < nk; i++ {
+					sl := g.R.Range(movedLo, movedHi)
+					if seen[sl] {
+						continue
+					}
+					seen[sl] = true
+					keys = append(keys, Key(tok, i, sl, ""))
+					vals = append(vals, "v")
+				}
+				if cmd != "mset" {
+					vals = nil
+				}
+				cp.Reqs = append(cp.Reqs, g.Split(tok, cmd, keys, vals))
+			} else if g.R.Pct(30) || (p.Variant == "mixed" && g.R.Pct(40)) {
 				var keys, vals []string
 				cmd := g.R.Pick([]string{"mget", "del", "mset"})
 				nk := g.R.Range(2, 4)
